@@ -42,7 +42,8 @@ type c08Gen struct {
 	depth  int
 }
 
-var c08Names = []string{"a", "b", "c", "f", "g", "h"}
+// the last two are names the language package exports: a package may bind them itself
+var c08Names = []string{"a", "b", "c", "f", "g", "h", "first", "length"}
 
 func (g *c08Gen) probe(tag string, e *sx.N) *sx.N {
 	g.nprobe++
@@ -56,7 +57,7 @@ func (g *c08Gen) guarded(e *sx.N) *sx.N {
 func (g *c08Gen) pkgRef() string { return fw.Pick(g.r, g.pkgs) }
 
 func (g *c08Gen) stmt() *sx.N {
-	k := g.r.Intn(24)
+	k := g.r.Intn(26)
 	name := fw.Pick(g.r, c08Names)
 	val := sx.I(int64(g.r.Intn(100)))
 	add := func(kind string) { g.kinds = append(g.kinds, kind) }
@@ -136,6 +137,13 @@ func (g *c08Gen) stmt() *sx.N {
 			return sx.Call("defun", sx.Y(name), sx.L(sx.Y("&rest"), sx.Y("xs")), sx.Call("car", sx.I(5)), sx.Call("set", sx.QY(fw.Pick(g.r, c08Names)), sx.I(-1)), sx.QY("unreached"))
 		}
 		return sx.Call("defun", sx.Y(name), sx.L(sx.Y("&rest"), sx.Y("xs")), sx.Y("xs"), sx.Call("car", sx.I(5)))
+	case k == 24:
+		// no body forms at all: the call returns () and nothing else happens
+		add("defun-empty")
+		return sx.Call("defun", sx.Y(name), sx.L(sx.Y("&rest"), sx.Y("xs")))
+	case k == 25:
+		add("defmacro-empty")
+		return sx.Call("defmacro", sx.Y(name), sx.L(sx.Y("&rest"), sx.Y("xs")))
 	case k == 23:
 		add("defmacro-failing")
 		return sx.Call("defmacro", sx.Y(name), sx.L(sx.Y("&rest"), sx.Y("xs")), sx.Call("car", sx.I(5)), sx.I(1))
